@@ -96,6 +96,17 @@ check("C16", "treap", "model_checking",
       "explicit-state BFS (heap-order invariant) + directed long histories for the height bound",
       "DESIGN.md §4 C16")
 
+check("C08", "reader", "fault_enumeration",
+      "Every execution is (input bytes, script of reader calls, delivery plan) where the harness's Read object owns every answer: for inputs up to 10 (quick) / 13 (thorough) bytes built from tokens x separators (CRLF, lone CR, blank lines, unterminated last line) ALL 2^(L-1) chunkings, plus every placement of one or two ErrorKind::Interrupted among the read calls for the shorter ones; for extreme values of all 12 integer types, tuples of arity 2..8 and multi-line text every placement of up to two deviations (short read / Interrupted) and byte-at-a-time delivery; for inputs as long as the observed internal buffer (65536) the interesting bytes (minus sign + digits, CR LF, whitespace run, end of input) at every offset around the boundary under 21 plans. Scripts: typed token reads in several widths per token, String, char, tuples, read_vec, read_line xk, read_lines, is_eof interposed, mixed. Results must equal an independent reference parser of the whole byte string for every delivery.",
+      "Trusted: the reference parser (tokens = maximal non-whitespace runs; lines end at LF or CRLF; a lone CR belongs to the line — the last only used for the delivery-independence oracle). Not covered: non-ASCII input, error kinds other than Interrupted, scripts asking for tokens that are not there.",
+      "deviation-bounded exhaustive enumeration of environment answers (all chunkings / all placements of <= 2 faults) on the real Reader",
+      "DESIGN.md §4 C08")
+check("C09", "writer", "model_checking",
+      "The writer's only state is the fill level of its buffer (size observed at run time: 65536). From ALL 65537 fill levels (thorough; quick: [0,64] ∪ [B-64,B] ∪ every 1021st) one or two write actions from an alphabet of 263 (every integer type at 0/±1/MIN/MAX, every rendered length 1..40, chars, &str and String of lengths around 0, 45, B and 2B, vectors, nested vectors, tuples of arity 2..8, the out!/outln! macros) followed by flush or drop; sink deviations (partial acceptance, Interrupted) enumerated up to two per execution; every value of i8/u8/i16/u16 (thorough: of u32/i32) and boundary values of the wide types rendered against to_string(). Sink bytes must equal the concatenated std renderings, nothing after flush is missing, and the real Reader reads the values back. The same enumeration runs in a second binary built with debug assertions (flush per write); both must agree.",
+      "Trusted: std's to_string/format as the rendering reference. Sinks never return Ok(0) and no error kind other than Interrupted. Histories longer than fill + two writes are covered only through the fill level they reach (the writer has no other state).",
+      "reachable-state enumeration (all fill levels x write alphabet) with bounded sink-fault enumeration, two build profiles",
+      "DESIGN.md §4 C09")
+
 PENDING = {
 }
 
